@@ -80,14 +80,25 @@ def list_queue(root, with_data=False):
     return out
 
 
+def _rm(path):
+    import shutil
+    if os.path.isdir(path) and not os.path.islink(path):
+        shutil.rmtree(path, ignore_errors=True)      # (C18 part 1 plants directories where files are expected)
+    else:
+        os.unlink(path)
+
+
 def clear_queue(root):
     q = os.path.join(root, "queue")
     for d in ("pid", "intd", "todo", "bounce"):
         p = os.path.join(q, d)
         for n in os.listdir(p):
-            os.unlink(os.path.join(p, n))
+            _rm(os.path.join(p, n))
     for d in ("mess", "info", "local", "remote"):
         p = os.path.join(q, d)
         for s in os.listdir(p):
+            if not os.path.isdir(os.path.join(p, s)):
+                os.unlink(os.path.join(p, s))
+                continue
             for n in os.listdir(os.path.join(p, s)):
-                os.unlink(os.path.join(p, s, n))
+                _rm(os.path.join(p, s, n))
